@@ -196,6 +196,37 @@ Proof.
   intros E. rewrite E in Hk. exact Hk.
 Qed.
 
+(* a common offset of the log-weights does not change which samples are kept *)
+Lemma xmaxo_shift lw c : xmaxo (map (fun l => xsub l c) lw) = xsub (xmaxo lw) c.
+Proof.
+  induction lw as [|l r IH]; [reflexivity|].
+  cbn [map xmaxo fold_right]. fold (xmaxo r). fold (xmaxo (map (fun l => xsub l c) r)). rewrite IH.
+  destruct l as [x|]; destruct (xmaxo r) as [y|]; cbn; try reflexivity.
+  f_equal. unfold Rmax. destruct (Rle_dec (x - c) (y - c)); destruct (Rle_dec x y); lra.
+Qed.
+
+Lemma map2_map_l {A A' B C} (f : A' -> B -> C) (g : A -> A') la lb :
+  map2 f (map g la) lb = map2 (fun a b => f (g a) b) la lb.
+Proof.
+  revert lb; induction la as [|a ra IH]; intros lb; [reflexivity|].
+  destruct lb as [|b rb]; [reflexivity|]. cbn. now rewrite IH.
+Qed.
+
+Lemma map2_ext {A B C} (f g : A -> B -> C) la lb : (forall a b, f a b = g a b) -> map2 f la lb = map2 g la lb.
+Proof.
+  intros H. revert lb; induction la as [|a ra IH]; intros lb; [reflexivity|].
+  destruct lb as [|b rb]; [reflexivity|]. cbn. now rewrite H, IH.
+Qed.
+
+Theorem rejection_shift lw us c : rejection (map (fun l => xsub l c) lw) us = rejection lw us.
+Proof.
+  unfold rejection. f_equal. unfold rej_keeps. rewrite xmaxo_shift.
+  destruct (xmaxo lw) as [M|]; cbn [xsub].
+  - rewrite map2_map_l. apply map2_ext. intros l u. destruct l as [x|]; cbn [xsub]; [|reflexivity].
+    replace (x - c - (M - c)) with (x - M) by lra. reflexivity.
+  - rewrite map_map. reflexivity.
+Qed.
+
 Theorem ratio_le_1 lw M x : xmaxo lw = Some M -> In (Some x) lw -> 0 < exp x / exp M <= 1.
 Proof.
   intros HM Hx. generalize (xmaxo_ge lw M HM x Hx) (exp_pos x) (exp_pos M). intros Hle Hx0 HM0. split.
